@@ -22,18 +22,26 @@ import common as C
 from common import f2b, b2f
 
 
-def gen_case(rng):
+def gen_case(rng, k=None):
     dim = rng.choice([1, 2, 2, 3])
     cps = [rng.choice([4, 5, 6, 7]) if dim < 3 else rng.choice([4, 5]) for _ in range(dim)]
     lengths = [rng.choice([1.0, 2.0, 3.5, 10.0, rng.uniform(0.5, 20.0)]) for _ in range(dim)]
     if rng.random() < 0.4:
         lengths = [lengths[0]] * dim
     cell_level = rng.choice([1, 1, 2])
-    composite = cell_level == 2 or rng.random() < 0.3
+    force = k is not None and k % 3 == 0      # every third grid: the composite-object handler
+    composite = force or cell_level == 2 or rng.random() < 0.3
     case = {"lengths": [f2b(x) for x in lengths], "cells_per_side": cps, "beta": f2b(rng.choice([1.0, 0.5, 2.0, 3.7])),
             "cell_level": cell_level, "composite": composite, "charge": rng.choice([None, "q", "q"]),
             "cf_scale": f2b(rng.choice([1.0, -1.0, 0.5, -2.5, rng.uniform(-3, 3)])),
             "bound_seed": rng.randrange(10 ** 9), "queries": []}
+    comp_handler = force or (composite and rng.random() < 0.3)
+    if comp_handler:
+        # CompositeObjectCellVetoEventHandler; the charges of the target composite object vary independently of the
+        # estimator's reference dipole charge
+        case.update({"handler": "composite", "n_points": rng.choice([2, 3]), "charge": rng.choice(["q", "q", "q", None]),
+                     "dipole_charge": f2b(rng.choice([1.0, 0.5, 2.0]))})
+    npts = case.get("n_points", 2)
     for k in range(rng.randrange(4, 9)):
         def pos():
             p = []
@@ -50,7 +58,22 @@ def gen_case(rng):
              "row": "zero" if k == 0 else ["frac", f2b(rng.random())],
              "u": f2b(0.0 if k < 2 else (1.0 if k == 2 else rng.random())),
              "e": f2b(rng.expovariate(1.0))}
-        if not composite:
+        if comp_handler:
+            q["lcharges"] = [f2b(rng.choice([1.0, -1.0, 0.5, rng.uniform(-2, 2)])) for _ in range(npts - 1)]
+            if rng.random() < 0.2:
+                q["out"] = {"mode": "empty"}
+            else:
+                dch = b2f(case["dipole_charge"])
+                mag = dch * rng.choice([1.0, 0.5, 0.25, 2.0, 3.0, rng.uniform(0.1, 4.0)])   # max |charge| of the target
+                tch = [mag * rng.choice([1.0, -1.0])] + [mag * rng.uniform(-1.0, 1.0) for _ in range(npts - 1)]
+                rng.shuffle(tch)
+                big = rng.random() < 0.6
+                q["out"] = {"mode": "occupied", "tcharges": [f2b(x) for x in tch],
+                            "ders": [f2b(rng.uniform(-0.3, 1.0) * (10.0 ** rng.randrange(-1, 3) if big else 1.0))
+                                     for _ in range(npts + 3)],
+                            "uc": f2b(rng.choice([0.0, 1.0, rng.random(), rng.random() * 0.1])),
+                            "tpos": [f2b(x) for x in pos()], "tleafpos": [[f2b(x) for x in pos()] for _ in range(npts)]}
+        elif not composite:
             if rng.random() < 0.3:
                 q["out"] = {"mode": "empty"}
             else:
@@ -206,6 +229,67 @@ def oracle_case(case, out, stats):
     return fails, f5
 
 
+def composite_factor(oq, n):
+    """factor_derivative = 0.0; += pairwise derivative of (active, target leaf k), k = 0..n-1 (plain float +=)"""
+    f = 0.0
+    for k in range(n):
+        f += b2f(oq["ders"][k % len(oq["ders"])])
+    return f
+
+
+def oracle_out_composite(case, q, r, ber, stats):
+    """CompositeObjectCellVetoEventHandler.send_out_state: the confirmation draw is random.uniform(0.0, B) with B exactly
+    the bound stored for the sampled offset and direction times |charge factor of the ACTIVE unit| (= the recorded
+    _bounding_event_rate, already checked against bounds[offset][direction][index] * |factor|) -- whatever the charges
+    of the target composite object are; confirmed iff max(0, sum of pairwise derivatives) > draw."""
+    oq, o = q["out"], r["out"]
+    n = case["n_points"]
+    if "exc" in o:
+        return "raised %s" % o["exc"]
+    if not o["same_list"]:
+        return "out-state is not the stored in-state list"
+    moving = [(tuple(i), v) for i, v in o["leaf_vels"] if v is not None]
+    if oq["mode"] == "empty":
+        stats["out_empty"] += 1
+        if o["state_ids"] != [[0]] or moving != [((0, 0), o["vel_before"])] or o["n_uniform"] != 0 or o["pot_calls"]:
+            return "empty target cell: state / velocities changed or a draw was made"
+        return None
+    if o["state_ids"] != [[0], [1]]:
+        return "out-state branches %r" % o["state_ids"]
+    if len(o["pot_calls"]) < n:
+        return "potential derivative called %d times for %d target units" % (len(o["pot_calls"]), n)
+    for k in range(n):
+        vel, sep, charges = o["pot_calls"][k]
+        want_ch = [q["charge"], oq["tcharges"][k]] if case["charge"] else [f2b(1.0), f2b(1.0)]
+        if vel != o["vel_before"] or charges != want_ch:
+            return "derivative %d called with velocity %r charges %r" % (k, vel, charges)
+    if not o["uniform_args"]:
+        return "no confirmation draw"
+    a, b = o["uniform_args"][0]
+    if b2f(a) != 0.0 or b != f2b(ber):
+        return ("confirmation draw on (%r, %r): the upper limit is not bounds[offset][direction] * |charge factor of "
+                "the active unit| = %r (target charges %r, estimator dipole charge %r)"
+                % (b2f(a), b2f(b), ber, [b2f(x) for x in oq["tcharges"]], b2f(case["dipole_charge"])))
+    factor = composite_factor(oq, n)
+    drawn = 0.0 + (ber - 0.0) * b2f(oq["uc"])
+    want_ex = not (max(0.0, factor) <= drawn)
+    ex = moving != [((0, 0), o["vel_before"])]
+    if ex != want_ex:
+        return "velocity %s although factor derivative=%r, uniform(0, bound %r)=%r" % (
+            "handed over" if ex else "kept", factor, ber, drawn)
+    if ex:
+        stats["out_exchanged"] += 1
+        if len(moving) != 1 or moving[0][1] != o["vel_before"] or moving[0][0] == (0, 0):
+            return "after the lifting not exactly one other leaf unit carries the velocity: %r" % (moving,)
+    else:
+        stats["out_rejected"] += 1
+        if o["n_uniform"] != 1 or len(o["pot_calls"]) != n:
+            return "unconfirmed event made further draws / derivative calls"
+    stats["out_composite_target_charge_ratio"].append(
+        round(max(abs(b2f(x)) for x in oq["tcharges"]) / b2f(case["dipole_charge"]), 3))
+    return None
+
+
 def oracle_out(case, q, r, ber, lengths, stats):
     """LeafUnitCellVetoEventHandler.send_out_state: empty target cell -> in-state returned unchanged; occupied ->
     one call of the potential's derivative, confirmation  derivative > 0 and uniform(0, bounding rate) < derivative
@@ -215,6 +299,8 @@ def oracle_out(case, q, r, ber, lengths, stats):
         return None
     if o is None:
         return "not driven"
+    if case.get("handler") == "composite":
+        return oracle_out_composite(case, q, r, ber, stats)
     if "exc" in o:
         return "raised %s" % o["exc"]
     dim = len(lengths)
@@ -308,9 +394,17 @@ def coq_case(case, out):
             if oq is not None and (o is None or "exc" in o):
                 e = "XIndexError"
             else:
-                ex = bool(o and o.get("target_vel") is not None)
+                if case.get("handler") == "composite":
+                    ex = bool(o and [tuple(i) for i, v in o["leaf_vels"] if v is not None] != [(0, 0)])
+                else:
+                    ex = bool(o and o.get("target_vel") is not None)
                 e = "(XOk %d %d %s %d %s)" % (r["time"][0], r["time"][1], zl(r["target"]), r["ber"], C.coq_bool(ex))
-        outq = "None" if oq is None or oq["mode"] == "empty" else "(Some (%d, %d))" % (oq["der"], oq["uc"])
+        if oq is None or oq["mode"] == "empty":
+            outq = "None"
+        elif case.get("handler") == "composite":
+            outq = "(Some (%d, %d))" % (f2b(composite_factor(oq, case["n_points"])), oq["uc"])
+        else:
+            outq = "(Some (%d, %d))" % (oq["der"], oq["uc"])
         qs.append("mkQ %d %s %d %d %d %d %d %d %d %s %s" % (
             q["dir"], zl(r["active_cell"]), q["stamp"][0], q["stamp"][1], q["speed"], f2b(cf), r["row"], q["u"], q["e"],
             outq, e))
@@ -320,8 +414,9 @@ def coq_case(case, out):
 
 def run(ctx, rng, replay_case=None):
     stats = {"pieces": 0, "integrals": 0, "g_near_breakpoint": 0, "draws_to_coq": 0, "glue_tables": 0,
-             "glue_queries": 0, "out_empty": 0, "out_exchanged": 0, "out_rejected": 0}
-    cases = [replay_case] if replay_case is not None else [gen_case(rng) for _ in range(ctx.n(24, 200))]
+             "glue_queries": 0, "out_empty": 0, "out_exchanged": 0, "out_rejected": 0,
+             "out_composite_target_charge_ratio": []}
+    cases = [replay_case] if replay_case is not None else [gen_case(rng, k) for k in range(ctx.n(24, 200))]
     chunks = [cases[i:i + 2] for i in range(0, len(cases), 2)]
     outs = C.run_driver_parallel(ctx, "c18_cellveto", [{"cases": ch} for ch in chunks])
     flat = [o for out in outs for o in out["out"]]
@@ -349,7 +444,13 @@ def run(ctx, rng, replay_case=None):
                         "grids_model_mismatch": len(mism),
                         "send_out_state": {"empty_target_cell": stats["out_empty"],
                                            "occupied_confirmed": stats["out_exchanged"],
-                                           "occupied_rejected": stats["out_rejected"]}, "grid_shapes": dims, "send_event_time_calls": nq,
+                                           "occupied_rejected": stats["out_rejected"],
+                                           "composite_handler_grids": sum(1 for c in cases if c.get("handler") == "composite"),
+                                           "composite_targets: max|target charge| / estimator dipole charge": {
+                                               "n": len(stats["out_composite_target_charge_ratio"]),
+                                               "below_1": sum(1 for x in stats["out_composite_target_charge_ratio"] if x < 1),
+                                               "equal_1": sum(1 for x in stats["out_composite_target_charge_ratio"] if x == 1),
+                                               "above_1": sum(1 for x in stats["out_composite_target_charge_ratio"] if x > 1)}}, "grid_shapes": dims, "send_event_time_calls": nq,
                         "calls_checked_completely": stats["glue_queries"], "walker_tables_checked": stats["glue_tables"],
                         "f5_class_calls": len(f5)},
             "explanation": "Handler glue: the real LeafUnitCellVetoEventHandler (send_event_time is inherited from "
@@ -363,6 +464,9 @@ def run(ctx, rng, replay_case=None):
                            "time via Model/Time.time_add, target = CellIndex.translate, bounding rate, confirmation); "
                            "LeafUnitCellVetoEventHandler.send_out_state driven for root-level units (empty target cell "
                            "-> in-state unchanged, occupied -> confirmation against the recorded bound, velocity "
-                           "hand-over); the composite-object handler's send_out_state (lifting) is covered only by the "
-                           "C05 _fill_lifting glue."
+                           "hand-over); CompositeObjectCellVetoEventHandler driven on composite in-states of 2 and 3 point "
+                           "masses with target composite objects whose charges vary independently of the estimator's "
+                           "reference dipole charge: the upper limit of the confirmation draw must be exactly the "
+                           "stored bound times |charge factor of the active unit| (the table its lifting fills is "
+                           "C05's _fill_lifting glue)."
                            % (len(cases), nq)}
